@@ -4,18 +4,21 @@ PLAN = {
     "manifest": {
         "technique": "Verus (z3) on formatting.rs items extracted verbatim: escape-unit grammar of the label-value/description sanitiser and line composition of write_{help,type,metric}_line, unbounded in the strings; Kani complete harnesses for the four character classes, bounded ASCII harness for the name sanitisers",
         "text": "For ALL Unicode strings the escaped output of sanitize_label_value / sanitize_description parses as a sequence of escape units (no raw LF, every backslash starts a valid two-char escape, no unescaped quote in label values) -- proved with a loop invariant on the real loop; write_type_line / write_help_line / write_metric_line are proved to emit exactly `name [unit-suffix] [_suffix] [{labels}] value LF` with the sample name = family name (+ allowed suffix), for every unit, suffix, label list and extra label.",
-        "note": "Assumed: vstd String/char specs; number formatting (Display) uninterpreted; metrics::Unit::as_str uninterpreted; name sanitisers (iterator chains) only bounded (<=3 ASCII chars) plus complete char classes; render()'s HELP/TYPE/sample ordering across HashMap drains is NOT decided here.",
+        "note": "Assumed: vstd String/char specs; number formatting (Display) uninterpreted; metrics::Unit::as_str uninterpreted; name sanitisers (iterator chains) only bounded (<=3 ASCII chars) plus complete char classes; render()'s HELP/TYPE/sample structure is proved over abstract lines (recorder.verus.rs) with the formatting functions as stubs carrying the contracts proved in formatting.verus.rs.",
     },
-    "min_obligations": {"quick": 13, "thorough": 13},
+    "min_obligations": {"quick": 20, "thorough": 20},
     "assumptions": [
         "vstd specifications of String::{push, push_str}, str::chars, slices; String::with_capacity yields an empty string (assumed)",
         "R11: Display::to_string rendering is an uninterpreted function of the value (number formatting is std's)",
         "metrics::Unit is stubbed by {Count, Percent, Other}; as_str is uninterpreted",
-        "render(): one TYPE line per family preceding its samples, over HashMap/IndexMap drains, is not decided by this check (see DESIGN.md)",
+        "render(): drains of std HashMap / IndexMap yield some sequence of entries (typed shims); that two families never share a sanitised name is the property's own precondition",
         "usize is 64 bit",
     ],
     "verus": [
         {"template": "formatting.verus.rs", "tier": "quick", "rlimit": 60, "min_functions": 12},
+        # render(): (HELP? TYPE SAMPLE* blank)* structure, every sample inside its TYPE line's family, distribution TYPE decided by the
+        # bare metric name -- over the formatting.rs line contracts proved above (shared template with C07)
+        {"template": "../C07/recorder.verus.rs", "tier": "quick", "rlimit": 60, "min_functions": 5},
     ],
     "kani": [{
         "crate": "metrics-exporter-prometheus", "cargo_args": ["--no-default-features"], "parallel": 3, "build_timeout": 3000,
